@@ -98,6 +98,61 @@ def synthetic_tc(rng):
     return rows
 
 
+BOUNDARY_QINDICES = [126, 127, 128, 254, 255, 256]
+
+
+def quant_factor(idx):
+    from vc2_conformance.pseudocode.quantization import quant_factor as qf
+    return qf(idx)
+
+
+def boundary_coeff(rng, Q, qm=0, level=0):
+    """a value that index Q (matrix entry qm) quantises to `level` but index Q-1 to something longer:
+    level 0: 0 at Q, non-zero at Q-1;  level 1: +-1 (4 bits) at Q, +-2 (6 bits) at Q-1"""
+    from vc2_conformance.pseudocode.quantization import forward_quant
+    idx = max(0, Q - qm)
+    c = ((level + 1) * quant_factor(idx) - 1) // 4
+    assert abs(forward_quant(c, idx)) == level and abs(forward_quant(c, max(0, idx - 1))) > level
+    return rng.choice([1, -1]) * c
+
+
+def boundary_tc(rng, profile):
+    """(coeffs, picture_bytes, minimum_qindex, minimum_slice_size_scaler): a slice grid in which at least one slice fits at
+    exactly Q (in 126..128 for LD, 254..256 for HQ) and not at Q-1; the budget leaves room for nothing (LD/HQ) or for one
+    4-bit code (LD)"""
+    Q = rng.choice([126, 127, 127, 128] if profile == "ld" else [254, 255, 255, 256])
+    sx, sy = rng.choice([1, 1, 2, 3]), rng.choice([1, 1, 2])
+    n = sx * sy
+    level = 1 if (profile == "ld" and rng.random() < 0.4) else 0
+    hot = rng.randrange(n)
+    rows = []
+    for y in range(sy):
+        row = []
+        for x in range(sx):
+            if y * sx + x == hot or rng.random() < 0.5:
+                qm = rng.choice([0, 0, 1, 3])
+                ny = rng.randint(0, 2)
+                yv = [boundary_coeff(rng, Q, qm, level)] + [0] * ny
+                yq = [qm] + [rng.randint(0, 4) for _ in range(ny)]
+                if level == 0 and rng.random() < 0.5:  # more values that also vanish at Q (or earlier)
+                    yv.insert(0, boundary_coeff(rng, Q - rng.randint(0, 9), 0, 0))
+                    yq.insert(0, 0)
+            else:
+                yv, yq = [0] * rng.randint(0, 3), [0] * 3
+                yq = yq[:len(yv)]
+            nc = rng.randint(0, 2)
+            c1 = ([boundary_coeff(rng, Q - rng.randint(0, 5), 0, 0) if (level == 0 and rng.random() < 0.3) else 0 for _ in range(nc)], [0] * nc)
+            c2 = ([0] * nc, [rng.randint(0, 2) for _ in range(nc)])
+            row.append(((yv, yq), c1, c2))
+        rows.append(row)
+    if profile == "ld":
+        pb = n * (2 if level else 1)  # payload 5 bits: one 4-bit code fits, a 6-bit one does not / payload 1 bit
+    else:
+        pb = 4 * n
+    minq = rng.choice([0, 0, 3, Q - 2, Q - 1, Q, Q + 1]) if rng.random() < 0.7 else rng.choice(BOUNDARY_QINDICES)
+    return rows, pb, minq, rng.choice([1, 1, 2])
+
+
 def pb_choices(profile, n, rng):
     """picture_bytes from below the minimum upward, incl. values forcing slice_size_scaler > 1"""
     if profile == "hq":
@@ -151,7 +206,13 @@ def corr_function_level(ctx, I):
         pb = pb_choices(profile, n, rng)
         if pb < 0:
             continue
-        add(tc, pb, rng.choice([0, 0, 0, 1, 5, 20, 60, 126, 130, 254, 260]), rng.choice([1, 1, 1, 2, 3, 10, 0]), profile, "synthetic")
+        minq = rng.choice(BOUNDARY_QINDICES) if rng.random() < 0.3 else rng.choice([0, 0, 0, 1, 5, 20, 60, 130, 260])
+        add(tc, pb, minq, rng.choice([1, 1, 1, 2, 3, 10, 0]), profile, "synthetic")
+    # slices whose smallest fitting index is exactly at / next to the largest index the qindex field can hold
+    for _ in range(ctx.pick(90, 900)):
+        profile = rng.choice(["hq", "ld"])
+        tc, pb, minq, mins = boundary_tc(rng, profile)
+        add(tc, pb, minq, mins, profile, "boundary")
     # coefficients of real pictures
     for _ in range(ctx.pick(80, 1500)):
         kw = common.random_small_config(rng, lossless=False, max_w=12, max_h=8, deep=rng.random() < 0.2)
@@ -345,7 +406,22 @@ def check_insufficient(ctx, I, where, inp, profile, pb, tc, minq, mins):
             c = (P.interleave(sc[1][0], sc[2][0]), P.interleave(sc[1][1], sc[2][1]))
             if no_index_fits(P, payload, [sc[0], c], 1, minq, 127):
                 return
-    ctx.violation(where + "-refuses-encodable-picture", inp, "Insufficient*PictureBytesError although every slice has an admissible index that fits")
+    # every slice has an admissible index that fits: which is the smallest one, per slice?
+    top = 255 if profile == "hq" else 127
+    firsts = []
+    for k, sc in enumerate(flat):
+        if profile == "hq":
+            t, sets, al = 8 * s * budgets[k], list(sc), 8 * s
+        else:
+            t, sets, al = 8 * budgets[k] - 7 - intlog2(8 * budgets[k] - 7), [sc[0], (P.interleave(sc[1][0], sc[2][0]), P.interleave(sc[1][1], sc[2][1]))], 1
+        firsts.append(next(q for q in range(minq, top + 1) if total_bits(P, q, sets, al) <= t))
+    if max(firsts) == top:
+        ctx.violation(where + "-refuses-although-max-qindex-fits", inp,
+                      "Insufficient*PictureBytesError although every slice fits with a representable index: smallest fitting indices %r, "
+                      "the qindex field holds up to %d" % (firsts, top), observed="Insufficient*PictureBytesError", expected="qindex %r" % (firsts,))
+    else:
+        ctx.violation(where + "-refuses-encodable-picture", inp,
+                      "Insufficient*PictureBytesError although every slice has an admissible index that fits: %r" % (firsts,))
 
 
 # ------------------------------------------------------------------------------- full stack
@@ -406,6 +482,14 @@ def build(I, inp):
     cf = common.make_codec_features(**kw)
     prng = random.Random(inp["picture_seed"])
     # a sequence of field pictures must hold whole frames
+    if inp.get("picture_const") is not None:
+        # constant planes: coefficient value + mid-level per component (depth 0 transform: the coefficients are the pixels)
+        pics = []
+        for i in range(2 if kw.get("fields") else 1):
+            pic = dict((c, [[inp["picture_const"][c] + (1 << (depth - 1))] * w for _ in range(h)]) for c, (w, h, depth) in common.dims(cf).items())
+            pic["pic_num"] = i
+            pics.append(pic)
+        return kw, cf, pics
     pics = [common.random_picture(cf, prng, inp["picture_kind"], pic_num=i) for i in range(2 if kw.get("fields") else 1)]
     return kw, cf, pics
 
@@ -442,6 +526,11 @@ def oracle_full_stack(ctx, I, inp, verbose=False):
         sizes = None if (sz is None or sizes is None) else sizes + sz
         slices_all += slices
     slices = slices_all
+    if over:
+        ctx.violation("hq-qindex-exceeds-8-bits" if profile == "hq" else "ld-qindex-exceeds-7-bits", inp,
+                      "the encoder picks qindex %r, which does not fit the %d-bit qindex field" % (over, 8 if profile == "hq" else 7),
+                      observed=over, expected="<= %d or Insufficient*PictureBytesError" % top)
+        return "qindex-too-wide"
     with SliceMeter(V) as meter:
         try:
             data = common.serialise([seq])
@@ -494,9 +583,25 @@ def search_full_stack(ctx, I):
                     luma_excursion=(1 << bits) - 1, color_diff_offset=0, color_diff_excursion=(1 << bits) - 1, quantization_matrix=None)
         fixed.append({"config": common.describe_config(full), "picture_kind": "extremes", "picture_seed": 1,
                       "minimum_qindex": 0, "minimum_slice_size_scaler": 1})
+    # pictures whose only non-zero coefficients need exactly index Q (depth-0 transform, constant planes, no room for any code)
+    for prof, Qs in (("ld", (126, 127, 128)), ("hq", (254, 255, 256))):
+        for Q in Qs:
+            for (sx, sy, frag, minq) in ((2, 1, 0, 0), (1, 2, 1, Q - 1), (3, 1, 0, Q)):
+                c = abs(boundary_coeff(rng, Q))
+                depth = c.bit_length() + 2
+                n = sx * sy
+                kw = dict(profile=prof, lossless=False, picture_bytes=(n if prof == "ld" else 4 * n), wavelet_index=rng.choice(common.WAVELETS),
+                          dwt_depth=0, dwt_depth_ho=0, slices_x=sx, slices_y=sy, fragment_slice_count=frag, frame_width=2 * sx, frame_height=2 * sy,
+                          color_diff_format=common.ColorDifferenceSamplingFormats.color_4_4_4, fields=False, interlaced=False, luma_offset=0,
+                          luma_excursion=(1 << depth) - 1, color_diff_offset=0, color_diff_excursion=(1 << depth) - 1,
+                          quantization_matrix=common.flat_quant_matrix(0, 0))
+                kw["wavelet_index_ho"] = kw["wavelet_index"]
+                fixed.append({"config": common.describe_config(kw), "picture_kind": "const", "picture_seed": 0,
+                              "picture_const": {"Y": rng.choice([1, -1]) * c, "C1": 0, "C2": rng.choice([0, c // 7])},
+                              "minimum_qindex": minq, "minimum_slice_size_scaler": 1})
     for inp in fixed:
         b = oracle_full_stack(ctx, I, inp)
-        ctx.count(1, key=("fixed", repr(inp)), bucket="stack-deep-" + b)
+        ctx.count(1, key=("fixed", repr(inp)), bucket="stack-boundary-" + b)
     for i in range(ctx.pick(450, 6000)):
         kw = common.random_small_config(rng, lossless=False, deep=rng.random() < 0.15)
         n = kw["slices_x"] * kw["slices_y"]
@@ -505,7 +610,7 @@ def search_full_stack(ctx, I):
         if kw["picture_bytes"] < 0:
             continue
         inp = {"config": common.describe_config(kw), "picture_kind": rng.choice(["noise", "zeros", "max", "mid", "extremes", "ramp", "noise", "extremes"]),
-               "picture_seed": rng.randrange(1 << 30), "minimum_qindex": rng.choice([0, 0, 0, 0, 1, 4, 15, 40, 100]),
+               "picture_seed": rng.randrange(1 << 30), "minimum_qindex": rng.choice(BOUNDARY_QINDICES) if rng.random() < 0.25 else rng.choice([0, 0, 0, 0, 1, 4, 15, 40, 100]),
                "minimum_slice_size_scaler": rng.choice([1, 1, 1, 2, 3, 7])}
         b = oracle_full_stack(ctx, I, inp)
         ctx.count(1, key=("stack", repr(inp)) if b.endswith("q>min") else None, bucket="stack-%s-%s" % (kw["profile"], b))
@@ -520,7 +625,8 @@ def run(ctx):
         "calculate_hq_length_field vs Model/EncoderSlices.v on (a) synthetic slice coefficient sets (1-4 x 1-3 slices, 0-10 coefficients per "
         "component, magnitudes up to 2^40, per-coefficient matrix values, unequal C1/C2 lengths) and (b) the coefficients the real "
         "transform_and_slice_picture yields for random small configurations and pictures; picture_bytes from below the minimum upward incl. "
-        "values around the slice_size_scaler thresholds, minimum_qindex 0..260, minimum_slice_size_scaler 0..10; compares scaler, per-slice "
+        "values around the slice_size_scaler thresholds, minimum_qindex 0..260 (30% in {126,127,128,254,255,256}), minimum_slice_size_scaler 0..10, "
+        "and (c) boundary grids built from quant_factor so that a slice fits at exactly Q in 126..128 (LD) / 254..256 (HQ) and not at Q-1; compares scaler, per-slice "
         "qindex, length fields and coefficient lists (or the Insufficient error).  A case is non-trivial when some slice needs qindex > minimum.  "
         "oracle: real make_sequence on random lossy configurations (both profiles, fragments, fields, all wavelets, bit depths to 32) x picture "
         "kinds x picture_bytes sweep x overrides: minimality by exhaustive re-quantisation of every smaller admissible index, 8-bit fields, "
